@@ -30,31 +30,41 @@ def _safe(name):
 
 
 def _drop_step(trace, idx):
-    t = _copy(trace)
-    st = t["steps"][idx]
-    del t["steps"][idx]
+    """Remove step idx together with everything that depends on it (calls on a removed
+    object, repeats / reissues of it, consumers of its result); re-index references."""
+    steps = [(j, _copy(s)) for j, s in enumerate(trace["steps"])]
+    dead = {idx}
+    st = trace["steps"][idx]
     if st["k"] == "new":
-        t["steps"] = [s for s in t["steps"] if s.get("obj") != st["obj"]]
-    # re-index `repeat` references; drop repeats whose source vanished
-    old = [s for j, s in enumerate(trace["steps"])]
-    remap = {}
-    for j, s in enumerate(old):
-        for jj, s2 in enumerate(t["steps"]):
-            if s2 == s and jj not in remap.values():
-                remap[j] = jj
-                break
+        dead |= {j for j, s in steps if s.get("obj") == st["obj"]}
+
+    def refs(s):
+        r = [s["of"]] if s["k"] in ("repeat", "reissue") else []
+        r += [a["of"] for a in s.get("args", []) if isinstance(a, dict) and a.get("gen") == "result"]
+        return r
+
+    changed = True
+    while changed:
+        changed = False
+        for j, s in steps:
+            if j not in dead and any(r in dead for r in refs(s)):
+                dead.add(j)
+                changed = True
+    kept = [(j, s) for j, s in steps if j not in dead]
+    used = {s.get("obj") for j, s in kept if s["k"] != "new"}
+    kept = [(j, s) for j, s in kept if not (s["k"] == "new" and s["obj"] not in used and not s.get("keep"))]
+    remap = {j: i for i, (j, s) in enumerate(kept)}
     out = []
-    for s in t["steps"]:
-        if s["k"] == "repeat":
-            if s["of"] not in remap:
-                continue
-            s = dict(s, of=remap[s["of"]])
+    for j, s in kept:
+        if s["k"] in ("repeat", "reissue"):
+            s["of"] = remap[s["of"]]
+        if s.get("args"):
+            s["args"] = [dict(a, of=remap[a["of"]]) if isinstance(a, dict) and a.get("gen") == "result" else a
+                         for a in s["args"]]
         out.append(s)
+    t = {k: v for k, v in trace.items() if k != "steps"}
+    t = _copy(t)
     t["steps"] = out
-    # drop objects that are never used
-    used = {s.get("obj") for s in t["steps"] if s["k"] != "new"}
-    t["steps"] = [s for s in t["steps"] if not (s["k"] == "new" and s["obj"] not in used
-                                                  and not s.get("keep"))]
     return t
 
 
